@@ -3638,6 +3638,12 @@ impl CanonicalizeContext {
 			if !is_int(&first_child) {
 				return Ok( false );
 			}
+			// this is a look ahead: canonicalizing an mrow moves its children into a new mrow that has to replace the old one,
+			//   which can't be done here (the old, now empty, mrow would stay in the tree). An mrow (single children were already lifted)
+			//   is neither a '/' nor an integer anyway.
+			if name(&as_element(fraction_children[1])) == "mrow" || name(&as_element(fraction_children[2])) == "mrow" {
+				return Ok( false );
+			}
 			let slash_part = canonicalize.canonicalize_mrows(as_element(fraction_children[1]))?;
 			if name(&slash_part) == "mo" && as_text(slash_part) == "/" {
 				let denom = canonicalize.canonicalize_mrows(as_element(fraction_children[2]))?;
